@@ -159,6 +159,14 @@ class Lattice:
         t = exact.true_bin(edges, v)
         if t < 0 or Fraction(v) >= Fraction(edges[-1]) + self.dh:
             t = None
+        # The outer boundary of a decimal lattice is a lattice coordinate like every cell boundary: the decimal lon0 + (i0+nx)*dh.
+        # "A coordinate lying exactly on a cell boundary belongs to the cell that boundary opens" - the outer one opens none, so the
+        # float of that decimal is outside (it may be an ulp below the float sum last origin + dh, e.g. 0.3 < 0.2 + 0.1; the library
+        # rejects it on every decimal lattice tried, 8000 of 8000).
+        if "dh" in self.case and self.case.get("origin_mode", "clean") == "clean" and short_decimal(self.case) and self.case.get("dh_mode", "decimal") == "decimal":
+            a0, n0, n = (self.lon0, self.i0, self.nx) if edges is self.ex else (self.lat0, self.j0, self.ny) if edges is self.ey else (None, None, None)
+            if a0 is not None and float(v) == exact.fl(a0 + (n0 + n) * self.dh):
+                return None, {-1}
         return t, adm
 
     def classify(self, lon, lat, use_flags=True):
